@@ -183,7 +183,7 @@ def accessor(ctx, qn, col):
         # which side is selected: a column named Bid/Ask, or a record field bid/ask
         named = [o[1][1] for o in ops if o[0] == 'sub' and o[1][0] == 'str'] + [o[1] for o in ops if o[0] == 'attr' and o[1].lstrip('._').lower() in ('bid', 'ask')]
         sides = [n_.lstrip('._').lower() for n_ in named if n_.lstrip('._').lower() in ('bid', 'ask')]
-        extra = [x for x in names if x not in ('.iloc', '.iat', '[]', '.values', 'item') and not (x.startswith('.') and x.lstrip('._').lower() in ('bid', 'ask', 'loc'))]
+        extra = [x for x in names if x not in ('.iloc', '.iat', '[]', '.values', 'item', 'to_numpy', 'tolist', 'array', 'to_list') and not (x.startswith('.') and x.lstrip('._').lower() in ('bid', 'ask', 'loc'))]
         if not ok_root or (not sides and not extra):
             ctx.undecided('C06.S1', '%s returns the %s column of the row found, unmodified' % (qn, col), fn.site(), 'value %s' % fmt(v)[:160])
         else:
